@@ -60,6 +60,7 @@ type State struct {
 	threads   []*threadRec
 	wgAdded   map[string]Term
 	loopHeap  map[*ssa.BasicBlock]*Heap
+	names     map[string]ssa.Value // latest SSA value bound to each source variable along the path executed so far
 	lp        *lpState // linearizable mode: the candidate linearization point of this path
 	loopVariant map[*ssa.BasicBlock]Term // value of the loop's decreases expression at the head of the current iteration
 	closOrd   int
@@ -92,6 +93,10 @@ func (s *State) clone() *State {
 		n.wgAdded[k] = v
 	}
 	n.lp = s.lp
+	n.names = map[string]ssa.Value{}
+	for k, v := range s.names {
+		n.names[k] = v
+	}
 	n.loopVariant = map[*ssa.BasicBlock]Term{}
 	for k, v := range s.loopVariant {
 		n.loopVariant[k] = v
@@ -936,6 +941,12 @@ func (vc *VC) execFrom(st *State, b *ssa.BasicBlock, from *ssa.BasicBlock) {
 			for _, ins := range b.Instrs {
 				if phi, ok := ins.(*ssa.Phi); ok {
 					st.vals[phi] = vc.phiVal(st, phi, b, from)
+					if phi.Comment != "" && phi.Comment != "rangeindex" {
+						if st.names == nil {
+							st.names = map[string]ssa.Value{}
+						}
+						st.names[phi.Comment] = phi
+					}
 				} else {
 					break
 				}
@@ -1289,6 +1300,14 @@ func (vc *VC) safety(st *State, goal Term, what string, ins ssa.Instruction) {
 func (vc *VC) execInstr(st *State, ins ssa.Instruction) {
 	switch x := ins.(type) {
 	case *ssa.DebugRef:
+		if obj := x.Object(); obj != nil && !x.IsAddr {
+			if _, isVar := obj.(*types.Var); isVar {
+				if st.names == nil {
+					st.names = map[string]ssa.Value{}
+				}
+				st.names[obj.Name()] = x.X
+			}
+		}
 		return
 	case *ssa.Alloc:
 		et := x.Type().(*types.Pointer).Elem()
